@@ -446,3 +446,102 @@ class AcceptorSiteTask(Task):
              detail=repr(getattr(g.get("reply_loop_over"), "name", None)))
         sa = [i for i, e in enumerate(tr) if e.name == "send_accept"]
         I.ob(f"{P}/the-accept-is-sent-once-after-the-negotiation", len(sa) == 1 and names.index("negotiate") < sa[0])
+
+
+# =============================================================================================
+# what ACSE.send_request / send_accept put into the A-ASSOCIATE primitive (C12)
+# =============================================================================================
+SEND_RQ = f"{AC}:ACSE.send_request"
+SEND_AC = f"{AC}:ACSE.send_accept"
+APP_CTX = "1.2.840.10008.3.1.1.1"
+
+
+class SendAssociateTask(Task):
+    """effect-trace contract: the primitive handed to the provider is a fresh A_ASSOCIATE whose parameters are exactly the
+    ones the property talks about - the DICOM application context name, the titles, the requestor's requested contexts /
+    all negotiated results (accepted followed by rejected), and the service user's user-information list (whose
+    multiplicities are C12's user-information invariant) - and it is sent exactly once."""
+    shard = False
+
+    def __init__(self, which, prefix="C12/"):
+        self.which, self.prefix = which, prefix
+        self.fn = SEND_RQ if which == "request" else SEND_AC
+        self.name = f"ACSE.send_{which}"
+        self.functions = [self.fn]
+        self.P = f"{prefix}{self.fn}"
+
+    def config(self, repo):
+        c = Config()
+        c.ob_prefix = self.prefix
+        c.summaries["pynetdicom.pdu_primitives:A_ASSOCIATE"] = lambda I, a, k: I.ghost["new_primitive"](I)
+        c.ext_models["pydicom.uid.UID"] = lambda I, a, k: ("UID", a[0])
+        c.summaries["pynetdicom.events:trigger"] = _trigger
+
+        def env_call(I, env, method, args, kw):
+            if env.path == "acse.dul" and method == "send_pdu":
+                I.trace.append(Ev("send_pdu", (args[0],)))
+                return None
+            return NotImplemented
+        c.env_call = env_call
+        return c
+
+    def body(self, I):
+        P, g = self.P, I.ghost
+        made = []
+
+        def new_primitive(I_):
+            p = Env(f"primitive{len(made)}")
+            made.append(p)
+            return p
+        g["new_primitive"] = new_primitive
+        me = Env("acse", cls=I.repo.cls(f"{AC}:ACSE"))
+        assoc, requestor, acceptor, dul = Env("acse.assoc"), Env("acse.requestor"), Env("acse.acceptor"), Env("acse.dul")
+        me.attrs.update(_assoc=assoc, assoc=assoc, requestor=requestor, acceptor=acceptor, dul=dul)
+        vals = {}
+        for owner, o in (("requestor", requestor), ("acceptor", acceptor)):
+            for nm in ("ae_title", "address_info", "user_information", "requested_contexts"):
+                vals[(owner, nm)] = Env(f"{owner}.{nm}")
+                o.attrs[nm] = vals[(owner, nm)]
+        rq_prim = Env("request_primitive")
+        rq_prim.attrs.update(calling_ae_title=Env("rq.calling"), called_ae_title=Env("rq.called"))
+        if self.which == "accept":
+            requestor.attrs["primitive"] = rq_prim
+        nacc, nrej = I.fresh("int", "n_accepted").e, I.fresh("int", "n_rejected").e
+        I.assume(z3.And(nacc >= 0, nrej >= 0))
+        acc = SymSeq("accepted_contexts", nacc, lambda i: Env("accepted_cx"))
+        rej = SymSeq("rejected_contexts", nrej, lambda i: Env("rejected_cx"))
+        assoc.attrs.update(accepted_contexts=acc, rejected_contexts=rej)
+        kind, val = I.run_function(I.repo.func(self.fn), [me])
+        I.ob(f"{P}/no-exception", kind == "return", detail=f"{kind}:{val!r}")
+        if kind != "return":
+            return
+        sent = [e for e in I.trace if e.name == "send_pdu"]
+        I.ob(f"{P}/exactly-one-fresh-A-ASSOCIATE-primitive-is-sent", len(sent) == 1 and len(made) == 1 and sent[0].args[0] is made[0],
+             detail=f"{len(sent)} sent, {len(made)} constructed")
+        if len(made) != 1:
+            return
+        prim = made[0]
+        sets = {}
+        for e in I.trace[:I.trace.index(sent[0])] if sent else I.trace:
+            if e.name == "setattr" and e.args[0] == prim.path:
+                sets.setdefault(e.args[1], []).append(e.args[2])
+        one = lambda k: sets.get(k, [None])[-1] if len(sets.get(k, [])) == 1 else "<not set exactly once before sending>"
+        I.ob(f"{P}/application-context-name-is-the-DICOM-application-context", one("application_context_name") == ("UID", APP_CTX),
+             detail=repr(one("application_context_name")))
+        if self.which == "request":
+            I.ob(f"{P}/calling-title-is-the-requestor's-and-called-title-the-acceptor's",
+                 one("calling_ae_title") is vals[("requestor", "ae_title")] and one("called_ae_title") is vals[("acceptor", "ae_title")])
+            I.ob(f"{P}/proposes-exactly-the-requestor's-requested-contexts",
+                 one("presentation_context_definition_list") is vals[("requestor", "requested_contexts")])
+            I.ob(f"{P}/user-information-is-the-requestor's-user-information-list", one("user_information") is vals[("requestor", "user_information")])
+            I.ob(f"{P}/the-request-primitive-is-kept-as-the-requestor's-primitive",
+                 any(e.name == "setattr" and e.args[0] == "acse.requestor" and e.args[1] == "primitive" and e.args[2] is prim for e in I.trace))
+        else:
+            I.ob(f"{P}/titles-are-echoed-from-the-request", one("calling_ae_title") is rq_prim.attrs["calling_ae_title"]
+                 and one("called_ae_title") is rq_prim.attrs["called_ae_title"])
+            I.ob(f"{P}/result-is-accepted-by-the-service-user", one("result") == 0 and one("result_source") == 1)
+            from pyvc.symcoll import ConcatSeq
+            res = one("presentation_context_definition_results_list")
+            I.ob(f"{P}/one-result-item-per-negotiated-context:accepted-followed-by-rejected",
+                 isinstance(res, ConcatSeq) and len(res.parts) == 2 and res.parts[0] is acc and res.parts[1] is rej, detail=repr(res))
+            I.ob(f"{P}/user-information-is-the-acceptor's-user-information-list", one("user_information") is vals[("acceptor", "user_information")])
